@@ -257,6 +257,51 @@ def gen_suspension(seed, drv):
     return g
 
 
+def gen_suspend_oversell(seed, drv):
+    """in the round that (legally) suspends a container, the same pool is handed an assignment that fits only if the suspended container's share
+    were already free: a suspending container keeps its whole allocation until its write-out ends, so the batch must be refused"""
+    rng = random.Random(seed)
+    tps = rng.choice([1, 2, 4, 8])
+    ram_pool = rng.choice([32, 64])
+    cfg = {"tps": tps, "multi": True, "over": False, "npools": rng.choice([1, 2]), "cpus": rng.choice([4, 8]), "ram": fstr(ram_pool)}
+    pipes = []
+    nb = rng.randint(1, 2)
+    for _ in range(nb):
+        n = rng.randint(2, 4)
+        pipes.append({"prio": 3, "ops": [simple_op(tps, rng.randint(1, 3), fixed=F(1, 64), parents=[i - 1] if i else []) for i in range(n)]})
+    extra = rng.randint(2, 5)
+    for _ in range(extra):
+        pipes.append({"prio": 3, "ops": [simple_op(tps, rng.randint(1, 3), fixed=F(1, 64))]})
+    g = _mk(rng, cfg, pipes, drv)
+    q = g.q
+    share_c = rng.choice([2, 3])
+    share_r = F(ram_pool, 4)
+    for pid in range(nb):
+        g.assign(rng.randrange(cfg["npools"]), share_c, share_r, sensible_refs(g, pid, True))
+    nxt = nb
+    for t in range(40):
+        if g.dead:
+            break
+        for pi, p in enumerate(g.pools()):
+            legal = [c for c in p["A"] if c[4]]
+            if legal and nxt < len(pipes) and rng.random() < 0.8:
+                c = legal[0]
+                g.emit(["suspend", pi, c[0]]); g.count("suspend_req_legal")
+                ac, ar = p["ac"], F(p["ar"], q)
+                kind = rng.choice(["cpu", "ram", "both", "fits"])
+                cpu = ac + (rng.randint(1, c[1]) if kind in ("cpu", "both") else 0)
+                ram = ar + (F(rng.randint(1, int(share_r * 64)), 64) if kind in ("ram", "both") else 0)
+                if kind == "fits":
+                    cpu, ram = max(1, ac), ar
+                if cpu >= 1 and ram > 0:
+                    g.assign(pi, cpu, ram, [(nxt, 0)])
+                    g.count("assignment_with_suspension_" + kind)
+                    nxt += 1
+        g.tick()
+    g.sc["order"] = g.order
+    return g
+
+
 def gen_oversell(seed, drv):
     """batches around the free amounts of a pool: exactly fitting, one over in CPU, one quantum over in RAM, both"""
     rng = random.Random(seed)
